@@ -227,7 +227,7 @@ func PartitionInputsAreRanges(p *core.Program, r *core.Report, rule string) {
 				okArg, how := false, ""
 				a := ast.Unparen(arg)
 				if call, ok := a.(*ast.CallExpr); ok {
-					if f2 := core.Callee(info, call); f2 != nil && f2.Name() == "Split" && c.Ellipsis != token.NoPos {
+					if f2 := core.Callee(info, call); f2 != nil && core.RefName(f2) == "Split" && c.Ellipsis != token.NoPos {
 						okArg, how = true, "elements of a Split() result"
 					}
 				}
@@ -239,7 +239,7 @@ func PartitionInputsAreRanges(p *core.Program, r *core.Report, rule string) {
 							if lid, ok := as.Lhs[0].(*ast.Ident); ok && info.ObjectOf(lid) == o {
 								if call, ok := ast.Unparen(as.Rhs[0]).(*ast.CallExpr); ok {
 									if f2 := core.Callee(info, call); f2 != nil && p.IsModuleFunc(f2) && isBlockList(firstResult(f2)) {
-										okArg, how = true, "list returned by "+f2.Name()+" (its own appends are checked)"
+										okArg, how = true, "list returned by "+core.RefName(f2)+" (its own appends are checked)"
 									}
 								}
 							}
